@@ -416,6 +416,11 @@ def run(ctx, params):
             uid = Node("userId", content="https://orcid.org/0000-0001-2345-6789")
             uid.add_attribute("directory", spelling)
             p_.add_child(uid)
+            # (... and reachable at an address in one of the spellings addresses are pasted in)
+            p_.add_child(Node("electronicMailAddress", content=("mailto:gaucho@example.org", "MAILTO:Gaucho@Example.org", "mailto:", " gaucho@example.org ",
+                                                                "<gaucho@example.org>", "Gaucho <gaucho@example.org>", "gaucho at example dot org",
+                                                                "gaucho@example.org;other@example.org", "", None)[(len(spelling) + len(party)) % 10]))
+            p_.add_child(Node("onlineUrl", content=("http://example.org", "HTTP://EXAMPLE.ORG/", "www.example.org", "example.org/~gaucho", "ftp://example.org")[len(party) % 5]))
             ds.add_child(p_)
             ctx.count("parties_with_directory_spellings")
             ctx.case(judge, ctx, ds, "party with a userId directory spelling")
